@@ -12,13 +12,13 @@ import sys
 
 import framework as fw
 import heapcommon as hc
-from c03 import HeapCheck
+from c03 import HeapCheck, GenX, run_history_x, oracle_snap, X_OPS
 
 
 def deep_snapshot(doc, extra):
     """Every attribute of every object reachable from doc and from the extra roots."""
     def prop(p):
-        return {"name": p.name, "id": p.id, "values": repr(p.values), "dtype": p.dtype, "unit": p.unit,
+        return {"name": p.name, "id": p.id, "values": safe_repr(p.values), "dtype": p.dtype, "unit": p.unit,
                 "uncertainty": repr(p.uncertainty), "definition": p.definition,
                 "reference": p.reference, "dependency": p.dependency,
                 "dependency_value": p.dependency_value, "value_origin": p.value_origin,
@@ -38,6 +38,68 @@ def deep_snapshot(doc, extra):
     return out
 
 
+class Hostile(object):
+    """A value whose conversion to text / int / float raises an exception of the given class (the
+    refusal paths must not depend on which class a converter happens to raise)."""
+
+    def __init__(self, exc):
+        self.exc = exc
+
+    def _raise(self, *_args):
+        raise self.exc("hostile value")
+
+    __str__ = __int__ = __float__ = __index__ = __trunc__ = __iter__ = __len__ = strip = _raise
+
+    def __repr__(self):
+        return "Hostile(%s)" % self.exc.__name__
+
+
+EXC_CLASSES = [OverflowError, ZeroDivisionError, KeyError, IndexError, RuntimeError, ArithmeticError,
+               LookupError, AssertionError, NotImplementedError, OSError, MemoryError, StopIteration,
+               FloatingPointError, BufferError, EOFError, ImportError, NameError, ReferenceError,
+               SystemError, UnicodeError, RecursionError, ValueError, TypeError, AttributeError]
+
+DTYPES = ["string", "text", "int", "float", "url", "datetime", "date", "time", "boolean", "person",
+          "2-tuple", "3-tuple", "1-tuple"]
+
+# pre-states of a Property: (dtype, values); None = not given
+PRE_STATES = [
+    (None, None), (None, []), ("int", None), ("float", None), ("string", None), ("date", None),
+    ("2-tuple", None), ("boolean", None),
+    ("float", [1.5, float("inf")]), ("float", [float("nan")]), ("float", [float("-inf"), 2.0]),
+    ("float", [1e308, 1.0]), (None, [1.5, float("inf")]), (None, [float("nan"), 1.0]),
+    ("int", [1, 2]), ("int", [10 ** 400]), (None, [3]), (None, [10 ** 400, 1]),
+    ("string", ["inf", "x"]), ("string", ["1e999"]), ("string", ["nan"]), ("string", ["1" * 5000]),
+    ("string", ["1", "2"]), (None, ["x"]), (None, ["1e999", "2"]), ("text", ["a\nb"]),
+    ("boolean", [True, False]), (None, [True]), ("date", ["2020-01-02"]),
+    ("datetime", ["2020-01-02 03:04:05"]), ("time", ["03:04:05"]), ("2-tuple", ["(1;2)"]),
+    ("3-tuple", ["(1;2;3)", "(4;5;6)"]), ("url", ["http://x"]), ("person", ["me"]),
+]
+
+
+def hostile_value(r):
+    import datetime
+    import decimal
+    import fractions
+    pool = [float("inf"), float("-inf"), float("nan"), 1e308, 10 ** 400, -10 ** 400, "inf", "-inf", "1e999",
+            "nan", "infinity", "1" * 5000, "1_0", " 1 ", u"\u0661\u0662", decimal.Decimal("Infinity"),
+            decimal.Decimal("NaN"), decimal.Decimal("sNaN"), decimal.Decimal("1e1000"),
+            fractions.Fraction(1, 3), complex(1, 2), b"1", bytearray(b"1"), None, [], [1, [2]], {"a": 1},
+            object(), datetime.date(2020, 1, 2), datetime.datetime(2020, 1, 2, 3, 4, 5),
+            datetime.time(3, 4, 5), True, set([1, 2]), range(3), (1, 2), "(1;2)", "(1;2;3)", "(1;2",
+            "2020-13-45", "25:61:61", "", "[1,2]", "[1,oops]", "oops", 1.5, 7, "7", "1.5", "true",
+            Hostile(r.choice(EXC_CLASSES)), Hostile(r.choice(EXC_CLASSES)), Hostile(r.choice(EXC_CLASSES)),
+            Hostile(OverflowError)]
+    return r.choice(pool)
+
+
+def safe_repr(x):
+    try:
+        return repr(x)
+    except Exception as exc:      # noqa
+        return "<repr raised %s>" % type(exc).__name__
+
+
 PROVOKE = ["values_unconvertible", "dtype_unconvertible", "append_unconvertible", "extend_unconvertible",
            "insert_unconvertible", "setitem_unconvertible", "val_cardinality", "sec_cardinality",
            "prop_cardinality", "new_id", "doc_date", "link_unresolvable", "ctor_values", "ctor_card_prop",
@@ -45,7 +107,7 @@ PROVOKE = ["values_unconvertible", "dtype_unconvertible", "append_unconvertible"
            "rename_clash", "reparent_clash", "append_self", "insert_clash", "extend_dup",
            "relink_unresolvable", "extend_later_refused", "include_unresolvable", "link_self_or_relative",
            "reorder_bad_index", "insert_bad_index", "setitem_bad_key", "merge_refused", "remove_foreign",
-           "values_out_of_range"]
+           "values_out_of_range", "dtype_matrix", "values_matrix", "ctor_matrix", "link_merge_conflict"]
 
 
 class C06(HeapCheck):
@@ -70,20 +132,39 @@ class C06(HeapCheck):
     ]
     rule = ("editing histories as in C03 with ~38% refused operations (clash at destination, wrong "
             "type, cycle, out-of-range index, duplicate inside an extend argument, invalid constructor "
-            "arguments with parent=), plus a provoke stream: 24 kinds of refused value / dtype / "
-            "cardinality / id / date / link / constructor calls on a populated document, deep snapshot "
+            "arguments with parent=; since seeded round 3 also deep-equal copies / twins, odd names and "
+            "positions, see C03), oracle-only histories with clone / merge / link / clean (refused primitive "
+            "operations compared), plus a provoke stream: 38 kinds of refused value / dtype / "
+            "cardinality / id / date / link / constructor calls on a populated document, among them three "
+            "matrix kinds (any Property pre-state x any dtype / any hostile value incl. values whose "
+            "conversion raises any exception class), every third case followed by 1-3 further provoked "
+            "refusals on the same documents, deep snapshot "
             "before and after. Non-trivial = a history with a refused op, or a provoked refusal that "
             "did raise; distinct = distinct canonical JSON.")
 
     def generate(self, tier, rng):
         cases = self.histories(tier, rng)
+        nx = 400 if tier == "quick" else 3000
+        for _ in range(nx):
+            cases.append({"xops": GenX(random.Random(rng.randrange(1 << 60))).history()})
         n = 12 if tier == "quick" else 200
+        # the matrix kinds span (pre-state x operation x value): many more, cheap cases
+        nm = 300 if tier == "quick" else 4000
         for kind in PROVOKE:
-            for _ in range(n):
-                cases.append({"provoke": kind, "seed": rng.randrange(1 << 60)})
+            for i in range(nm if kind.endswith("_matrix") else n):
+                case = {"provoke": kind, "seed": rng.randrange(1 << 60)}
+                if i % 3 == 2:
+                    case["then"] = [rng.choice(PROVOKE) for _ in range(rng.randrange(1, 4))]
+                cases.append(case)
         return cases
 
     def impl(self, case):
+        if "xops" in case:
+            # histories with clone (+ re-attach, children of the original moved into the deep-equal
+            # copy and back), merge, link, clean: executed as in C03 (which holds the model tie for
+            # them); here the oracle compares the snapshots around every refused primitive operation
+            trace, done, skipped = run_history_x(case["xops"])
+            return {"x": True, "trace": trace, "done": done, "skipped": skipped}
         if "provoke" not in case:
             return HeapCheck.impl(self, case)
         import odml
@@ -107,147 +188,230 @@ class C06(HeapCheck):
                           lambda: setattr(c, "parent", r.choice([a, b, doc]))])()
             except Exception:
                 pass
-        before = deep_snapshot(doc, [free])
-        k = case["provoke"]
-        bad = r.choice(["abc", "1.5x", object, [1, "a"], {"a": 1}])
-        try:
-            if k == "values_unconvertible":
-                p_int.values = ["1", "oops"]
-            elif k == "dtype_unconvertible":
-                p_str.dtype = r.choice(["int", "date", "boolean", "2-tuple"])
-            elif k == "append_unconvertible":
-                p_int.append("oops")
-            elif k == "extend_unconvertible":
-                p_int.extend([4, "oops"])
-            elif k == "insert_unconvertible":
-                p_int.insert(1, "oops")
-            elif k == "setitem_unconvertible":
-                p_int[0] = "oops"
-            elif k == "val_cardinality":
-                p_int.val_cardinality = r.choice([(3, 1), "x", -2, (1, 2, 3), 1.5])
-            elif k == "sec_cardinality":
-                a.sec_cardinality = r.choice([(3, 1), "x", -2, (1, 2, 3)])
-            elif k == "prop_cardinality":
-                a.prop_cardinality = r.choice([(3, 1), "x", -2, (-1, 4)])
-            elif k == "new_id":
-                r.choice([a, p_int, doc]).new_id(r.choice(["garbage", "1234", "g" * 32]))
-            elif k == "doc_date":
-                doc.date = r.choice(["not a date", "2020-13-45", "12/31/2020x"])
-            elif k == "link_unresolvable":
-                a.link = r.choice(["/no/such", "nope", "/b/zzz"])
-            elif k == "ctor_values":
-                odml.Property("new", values=["oops"], dtype="int", parent=a)
-            elif k == "ctor_card_prop":
-                odml.Property("new", values=[1], parent=a, val_cardinality=(3, 1))
-            elif k == "ctor_card_sec":
-                odml.Section("new", "t", parent=a, sec_cardinality=r.choice([(3, 1), "x"]))
-            elif k == "ctor_clash":
-                r.choice([lambda: odml.Section("c", "t", parent=a),
-                          lambda: odml.Property("n", values=[1], parent=a)])()
-            elif k == "create_clash":
-                r.choice([lambda: a.create_section("c"), lambda: a.create_property("n", 1)])()
-            elif k == "invalid_dtype":
-                p_str.dtype = r.choice(["nonsense", "join", "Int eger"])
-            elif k == "uncertainty_text":
-                p_int.uncertainty = "plus minus"
-            elif k == "rename_clash":
-                r.choice([lambda: setattr(a, "name", "b"), lambda: setattr(p_str, "name", "n")])()
-            elif k == "reparent_clash":
-                r.choice([lambda: setattr(c, "parent", b), lambda: setattr(p_int, "parent", b)])()
-            elif k == "append_self":
-                r.choice([lambda: c.append(a), lambda: a.append(a), lambda: a.insert(0, doc)])()
-            elif k == "insert_clash":
-                b.insert(0, c)
-            elif k == "extend_dup":
-                x = odml.Section("fresh", "t")
-                free.extend([x, x])
-            elif k == "extend_later_refused":
-                # a later entry of the argument is refused: clash with a child of another or the same
-                # type, a Property clash, a non-odml object, an ancestor (cycle), a duplicate
-                x = odml.Section("fresh", r.choice(["t", "u"]))
-                y = odml.Property("freshp", values=[1])
-                badobj = r.choice([lambda: odml.Section("c", "u"), lambda: odml.Section("c", "t"),
-                                   lambda: odml.Property("n", values=[7]), lambda: "text", lambda: doc,
-                                   lambda: a, lambda: x])()
-                first = r.sample([x, y], r.randrange(1, 3))
-                a.extend(first + [badobj] + ([odml.Section("tail", "t")] if r.random() < 0.5 else []))
-            elif k == "relink_unresolvable":
-                # a link that is resolved already, then one that cannot be resolved
-                # (the linker is c, which shares no child name with the target /b)
-                c.link = "/b"
-                before = deep_snapshot(doc, [free])
-                c.link = r.choice(["/no/such", "nope", "/b/zzz", "../zzz"])
-            elif k == "include_unresolvable":
-                c.link = "/b"
-                before = deep_snapshot(doc, [free])
-                c.include = r.choice(["/no/such/file.xml#x", "nothing", "file:///no/such.xml#/a"])
-            elif k in ("reorder_bad_index", "insert_bad_index", "setitem_bad_key"):
-                # positions that are not plain small ints: floats (integral or not), ints beyond the
-                # machine word, bool, None, text, a tuple
-                pos = r.choice([1.5, 1.0, 0.0, 2 ** 63, 10 ** 30, -10 ** 30, None, "1", (0,), float("nan"),
-                                float("inf")])
-                if k == "reorder_bad_index":
-                    r.choice([c, p_int, p_str, b]).reorder(pos)
-                elif k == "insert_bad_index":
-                    r.choice([lambda: a.insert(pos, odml.Section("ins", "t")),
-                              lambda: a.insert(pos, odml.Property("insp", values=[1])),
-                              lambda: doc.insert(pos, odml.Section("ins", "t")),
-                              lambda: p_int.insert(pos, 7)])()
-                else:
-                    key = r.choice([pos, "nosuch", 17, -17])
-                    r.choice([lambda: a.sections.__setitem__(key, odml.Section("ins", "t")),
-                              lambda: a.properties.__setitem__(key, odml.Property("insp", values=[1])),
-                              lambda: doc.sections.__setitem__(key, odml.Section("ins", "t")),
-                              lambda: p_int.__setitem__(key, 7)])()
-            elif k == "merge_refused":
-                # a conflict that sits deep in the source, behind children that merge fine
-                src = odml.Section("a", "t")
-                odml.Section("early", "t", parent=src)
-                odml.Property("fresh", values=[1], parent=src)
-                sc = odml.Section("c", "t", parent=src)
-                odml.Section("deep_early", "t", parent=sc)
-                strict = r.random() < 0.5
-                how = r.choice(["value", "unit", "dtype", "definition"]) if strict else "value"
-                if not any(pp.name == "q" for pp in c.properties):
-                    odml.Property("q", values=[1, 2], dtype="int", unit="mV", definition="one", parent=c)
-                if how == "value":
-                    odml.Property("q", values=["not a number"], dtype="string", parent=sc)
-                elif how == "unit":
-                    odml.Property("q", values=[3], dtype="int", unit="kV", parent=sc)
-                elif how == "dtype":
-                    odml.Property("q", values=[3.5], dtype="float", parent=sc)
-                else:
-                    odml.Property("q", values=[3], dtype="int", definition="another", parent=sc)
-                before = deep_snapshot(doc, [free])
-                a.merge(src, strict=strict)
-            elif k == "remove_foreign":
-                # remove asked of a container that does not hold the object
-                r.choice([lambda: b.remove(c), lambda: a.remove(p_date), lambda: doc.remove(c),
-                          lambda: free.remove(p_int), lambda: c.remove(a)])()
-            elif k == "values_out_of_range":
-                big = r.choice([10 ** 400, float("inf"), "inf", "-inf", "1e999", float("nan"), "nan"])
-                r.choice([lambda: setattr(p_int, "values", [1, big]), lambda: p_int.append(big),
-                          lambda: p_int.extend([2, big]), lambda: p_int.insert(0, big),
-                          lambda: odml.Property("fl", values=[1.5, 10 ** 400], dtype="float", parent=a),
-                          lambda: p_int.__setitem__(0, big)])()
-            elif k == "link_self_or_relative":
-                c.link = r.choice(["/a/c/zzz", "../../zzz", "zzz"])
-            raised = None
-        except Exception as exc:
-            raised = fw.exc_name(exc)
-        after = deep_snapshot(doc, [free])
-        return {"provoke": k, "raised": raised, "same": before == after,
-                "diff": [] if before == after else _diff(before, after)}
+        def once(k):
+            stage = ["call"]
+            before = deep_snapshot(doc, [free])
+            bad = r.choice(["abc", "1.5x", object, [1, "a"], {"a": 1}])
+            try:
+                if k == "values_unconvertible":
+                    p_int.values = ["1", "oops"]
+                elif k == "dtype_unconvertible":
+                    p_str.dtype = r.choice(["int", "date", "boolean", "2-tuple"])
+                elif k == "append_unconvertible":
+                    p_int.append("oops")
+                elif k == "extend_unconvertible":
+                    p_int.extend([4, "oops"])
+                elif k == "insert_unconvertible":
+                    p_int.insert(1, "oops")
+                elif k == "setitem_unconvertible":
+                    p_int[0] = "oops"
+                elif k == "val_cardinality":
+                    p_int.val_cardinality = r.choice([(3, 1), "x", -2, (1, 2, 3), 1.5])
+                elif k == "sec_cardinality":
+                    a.sec_cardinality = r.choice([(3, 1), "x", -2, (1, 2, 3)])
+                elif k == "prop_cardinality":
+                    a.prop_cardinality = r.choice([(3, 1), "x", -2, (-1, 4)])
+                elif k == "new_id":
+                    r.choice([a, p_int, doc]).new_id(r.choice(["garbage", "1234", "g" * 32]))
+                elif k == "doc_date":
+                    doc.date = r.choice(["not a date", "2020-13-45", "12/31/2020x"])
+                elif k == "link_unresolvable":
+                    a.link = r.choice(["/no/such", "nope", "/b/zzz"])
+                elif k == "ctor_values":
+                    odml.Property("new", values=["oops"], dtype="int", parent=a)
+                elif k == "ctor_card_prop":
+                    odml.Property("new", values=[1], parent=a, val_cardinality=(3, 1))
+                elif k == "ctor_card_sec":
+                    odml.Section("new", "t", parent=a, sec_cardinality=r.choice([(3, 1), "x"]))
+                elif k == "ctor_clash":
+                    r.choice([lambda: odml.Section("c", "t", parent=a),
+                              lambda: odml.Property("n", values=[1], parent=a)])()
+                elif k == "create_clash":
+                    r.choice([lambda: a.create_section("c"), lambda: a.create_property("n", 1)])()
+                elif k == "invalid_dtype":
+                    p_str.dtype = r.choice(["nonsense", "join", "Int eger"])
+                elif k == "uncertainty_text":
+                    p_int.uncertainty = "plus minus"
+                elif k == "rename_clash":
+                    r.choice([lambda: setattr(a, "name", "b"), lambda: setattr(p_str, "name", "n")])()
+                elif k == "reparent_clash":
+                    r.choice([lambda: setattr(c, "parent", b), lambda: setattr(p_int, "parent", b)])()
+                elif k == "append_self":
+                    r.choice([lambda: c.append(a), lambda: a.append(a), lambda: a.insert(0, doc)])()
+                elif k == "insert_clash":
+                    b.insert(0, c)
+                elif k == "extend_dup":
+                    x = odml.Section("fresh", "t")
+                    free.extend([x, x])
+                elif k == "extend_later_refused":
+                    # a later entry of the argument is refused: clash with a child of another or the same
+                    # type, a Property clash, a non-odml object, an ancestor (cycle), a duplicate
+                    x = odml.Section("fresh", r.choice(["t", "u"]))
+                    y = odml.Property("freshp", values=[1])
+                    badobj = r.choice([lambda: odml.Section("c", "u"), lambda: odml.Section("c", "t"),
+                                       lambda: odml.Property("n", values=[7]), lambda: "text", lambda: doc,
+                                       lambda: a, lambda: x])()
+                    first = r.sample([x, y], r.randrange(1, 3))
+                    a.extend(first + [badobj] + ([odml.Section("tail", "t")] if r.random() < 0.5 else []))
+                elif k == "relink_unresolvable":
+                    # a link that is resolved already, then one that cannot be resolved
+                    # (the linker is c, which shares no child name with the target /b)
+                    stage[0] = "relink"
+                    c.link = "/b"
+                    stage[0] = "call"
+                    before = deep_snapshot(doc, [free])
+                    c.link = r.choice(["/no/such", "nope", "/b/zzz", "../zzz"])
+                elif k == "include_unresolvable":
+                    stage[0] = "relink"
+                    c.link = "/b"
+                    stage[0] = "call"
+                    before = deep_snapshot(doc, [free])
+                    c.include = r.choice(["/no/such/file.xml#x", "nothing", "file:///no/such.xml#/a"])
+                elif k == "link_merge_conflict":
+                    # the path resolves, but merging the target is refused: it has a Property of the
+                    # same name whose values do not convert (a: n = [1, 2, 3] int)
+                    tgt = odml.Section("tgt%d" % r.randrange(10 ** 6), "t", parent=r.choice([doc, b]))
+                    odml.Property("n", values=[r.choice(["x", "2020-01-02", "1.5x"])], parent=tgt)
+                    if r.random() < 0.5:
+                        odml.Section("sub", "t", parent=tgt)
+                    before = deep_snapshot(doc, [free])
+                    stage[0] = "linkmerge"
+                    a.link = tgt.get_path()
+                elif k == "relink_after_merge":
+                    # (corpus only: the witness of the known finding relink-after-merge) a linked
+                    # Section is merged with another Section, then its link is assigned again
+                    if c.parent is not a:
+                        c.parent = a
+                    c.link = "/b"
+                    src = odml.Section("c", "t")
+                    odml.Section("other", "t", parent=src)
+                    c.merge(src)
+                    before = deep_snapshot(doc, [free])
+                    stage[0] = "relink"
+                    c.link = "/b"
+                elif k in ("reorder_bad_index", "insert_bad_index", "setitem_bad_key"):
+                    # positions that are not plain small ints: floats (integral or not), ints beyond the
+                    # machine word, bool, None, text, a tuple
+                    pos = r.choice([1.5, 1.0, 0.0, 2 ** 63, 10 ** 30, -10 ** 30, None, "1", (0,), float("nan"),
+                                    float("inf")])
+                    if k == "reorder_bad_index":
+                        r.choice([c, p_int, p_str, b]).reorder(pos)
+                    elif k == "insert_bad_index":
+                        r.choice([lambda: a.insert(pos, odml.Section("ins", "t")),
+                                  lambda: a.insert(pos, odml.Property("insp", values=[1])),
+                                  lambda: doc.insert(pos, odml.Section("ins", "t")),
+                                  lambda: p_int.insert(pos, 7)])()
+                    else:
+                        key = r.choice([pos, "nosuch", 17, -17])
+                        r.choice([lambda: a.sections.__setitem__(key, odml.Section("ins", "t")),
+                                  lambda: a.properties.__setitem__(key, odml.Property("insp", values=[1])),
+                                  lambda: doc.sections.__setitem__(key, odml.Section("ins", "t")),
+                                  lambda: p_int.__setitem__(key, 7)])()
+                elif k == "merge_refused":
+                    # a conflict that sits deep in the source, behind children that merge fine
+                    src = odml.Section("a", "t")
+                    odml.Section("early", "t", parent=src)
+                    odml.Property("fresh", values=[1], parent=src)
+                    sc = odml.Section("c", "t", parent=src)
+                    odml.Section("deep_early", "t", parent=sc)
+                    strict = r.random() < 0.5
+                    how = r.choice(["value", "unit", "dtype", "definition"]) if strict else "value"
+                    if not any(pp.name == "q" for pp in c.properties):
+                        odml.Property("q", values=[1, 2], dtype="int", unit="mV", definition="one", parent=c)
+                    if how == "value":
+                        odml.Property("q", values=["not a number"], dtype="string", parent=sc)
+                    elif how == "unit":
+                        odml.Property("q", values=[3], dtype="int", unit="kV", parent=sc)
+                    elif how == "dtype":
+                        odml.Property("q", values=[3.5], dtype="float", parent=sc)
+                    else:
+                        odml.Property("q", values=[3], dtype="int", definition="another", parent=sc)
+                    before = deep_snapshot(doc, [free])
+                    a.merge(src, strict=strict)
+                elif k == "remove_foreign":
+                    # remove asked of a container that does not hold the object
+                    r.choice([lambda: b.remove(c), lambda: a.remove(p_date), lambda: doc.remove(c),
+                              lambda: free.remove(p_int), lambda: c.remove(a)])()
+                elif k == "values_out_of_range":
+                    big = r.choice([10 ** 400, float("inf"), "inf", "-inf", "1e999", float("nan"), "nan"])
+                    r.choice([lambda: setattr(p_int, "values", [1, big]), lambda: p_int.append(big),
+                              lambda: p_int.extend([2, big]), lambda: p_int.insert(0, big),
+                              lambda: odml.Property("fl", values=[1.5, 10 ** 400], dtype="float", parent=a),
+                              lambda: p_int.__setitem__(0, big)])()
+                elif k == "link_self_or_relative":
+                    c.link = r.choice(["/a/c/zzz", "../../zzz", "zzz"])
+                elif k in ("dtype_matrix", "values_matrix"):
+                    # a Property in any pre-state (every dtype, no dtype, no values, values at the edge of
+                    # the type: inf, nan, huge ints, numeric texts) meets any dtype / any value: whatever
+                    # exception class the conversion raises inside, a refusal leaves the Property as it was
+                    dt, vals = r.choice(PRE_STATES)
+                    q = odml.Property("q", values=vals, dtype=dt, parent=r.choice([a, c, None]))
+                    if q.parent is None:
+                        free.append(q)
+                    before = deep_snapshot(doc, [free])
+                    if k == "dtype_matrix":
+                        q.dtype = r.choice(["int", "float"]) if r.random() < 0.35 else \
+                            r.choice(DTYPES + DTYPES + ["INT", "Float", "str", "bool", None, "4-tuple"])
+                    else:
+                        good = list(q.values[:1])
+                        h = hostile_value(r)
+                        # a first value that converts (and, without a dtype, decides the inferred one)
+                        first = r.choice([1, 3, "5", 2.5, True, "x", "2020-01-02", "(1;2)"])
+                        strict = r.random() < 0.7
+                        r.choice([lambda: setattr(q, "values", [h]),
+                                  lambda: setattr(q, "values", h),
+                                  lambda: setattr(q, "values", good + [h]),
+                                  lambda: setattr(q, "values", [first, h]),
+                                  lambda: setattr(q, "values", [first, h]),
+                                  lambda: q.extend([first, h], strict=strict),
+                                  lambda: setattr(q, "values", [h, hostile_value(r)]),
+                                  lambda: q.append(h, strict=strict),
+                                  lambda: q.extend([h], strict=strict),
+                                  lambda: q.extend(good + [h], strict=strict),
+                                  lambda: q.extend(h, strict=strict),
+                                  lambda: q.insert(r.randrange(-1, 3), h, strict=strict),
+                                  lambda: q.__setitem__(r.randrange(-1, 2), h)])()
+                elif k == "ctor_matrix":
+                    dt = r.choice(DTYPES + [None, None])
+                    h = hostile_value(r)
+                    vals = r.choice([[h], h, [1, h], ["x", h], [h, hostile_value(r)]])
+                    r.choice([lambda: odml.Property("new", values=vals, dtype=dt, parent=a),
+                              lambda: a.create_property("new", values=vals, dtype=dt),
+                              lambda: odml.Property("new", values=vals, dtype=dt, parent=a, unit="mV",
+                                                    uncertainty=r.choice([None, "x", h]))])()
+                raised = None
+            except Exception as exc:
+                raised = fw.exc_name(exc)
+            after = deep_snapshot(doc, [free])
+            return {"provoke": k, "raised": raised, "same": before == after, "stage": stage[0],
+                    "diff": [] if before == after else _diff(before, after)}
+
+        # "at any point of an editing history", also after other refused calls: the kinds listed in
+        # `then` are provoked on the same documents afterwards (each with its own before / after)
+        results = [once(k) for k in [case["provoke"]] + list(case.get("then", []))]
+        for res in results:
+            if res["raised"] and not res["same"]:
+                return res
+        out = dict(results[0])
+        out["then"] = [[res["provoke"], res["raised"]] for res in results[1:]]
+        return out
 
     def model_requests(self, case, obs):
-        if "provoke" in case:
+        if "provoke" in case or "xops" in case:
             return []
         return HeapCheck.model_requests(self, case, obs)
 
     def compare(self, case, obs, answers):
-        if "provoke" in case:
+        if "provoke" in case or "xops" in case:
             return []
         return HeapCheck.compare(self, case, obs, answers)
+
+    def finding_key(self, case, obs, failure):
+        if "provoke" in case and failure.endswith(" [RuntimeError while the resolved link was assigned once more]"):
+            return "relink-after-merge"
+        if "provoke" in case and failure.endswith(" [assignment of a resolvable link refused by the merge check]"):
+            return "link-refused-by-merge-keeps-link"
+        return None
 
     def tag(self, case, obs):
         if "provoke" in case:
@@ -255,25 +419,33 @@ class C06(HeapCheck):
                     bool(obs.get("raised")))
         tr = obs.get("trace", [])
         refused = sum(1 for s in tr if s["out"] != "ok")
-        return ("history refused=%d" % min(refused // 3 * 3, 12), refused > 0)
+        pre = "x-history" if "xops" in case else ("odd-history" if case.get("oracle_only") else "history")
+        return ("%s refused=%d" % (pre, min(refused // 3 * 3, 12)), refused > 0)
 
     def oracle(self, case, obs):
         if "harness_exception" in obs:
             return []
         if "provoke" in case:
             if obs["raised"] and not obs["same"]:
-                return ["%s raised %s and changed the documents: %s" % (obs["provoke"], obs["raised"], obs["diff"][:3])]
+                note = ""
+                if obs.get("stage") == "relink" and obs["raised"] == "RuntimeError":
+                    note = " [RuntimeError while the resolved link was assigned once more]"
+                if obs.get("stage") in ("relink", "linkmerge") and obs["raised"] == "ValueError":
+                    note = " [assignment of a resolvable link refused by the merge check]"
+                return ["%s raised %s and changed the documents: %s%s"
+                        % (obs["provoke"], obs["raised"], obs["diff"][:3], note)]
             return []
         prev = []
         for k, step in enumerate(obs["trace"]):
-            if step["out"] != "ok":
+            # (refused merges belong to C13, refused link assignments to C12 and the provoke stream)
+            if step["out"] != "ok" and obs["done"][k]["op"] not in ("merge", "set_link", "clean"):
                 if step["snap"] != prev:
                     diff = [i for i, (x, y) in enumerate(zip(step["snap"], prev)) if x != y]
                     extra = len(step["snap"]) - len(prev)
                     return ["op %d %s raised %s but changed objects %s (and %d new objects): before %s after %s"
                             % (k, obs["done"][k], step["out"], diff, extra,
                                [prev[i] for i in diff[:3]], [step["snap"][i] for i in diff[:3]])]
-            if hc.wf_failures(step["snap"]):
+            if hc.wf_failures(oracle_snap(step["snap"])):
                 break            # beyond a broken tree (C03's business) nothing is expected
             prev = step["snap"]
         return []
